@@ -281,8 +281,8 @@ def run_check(check, tier='quick', seed0=0, workers=None, runs=None, wall_cap=No
 
         # determinism: the first det_n seeds again in a fresh interpreter with another hash seed
         det_checked = 0
-        if det_n and not harness_errors and not timed_out:
-            seeds = [j[1] for j in jobs if j[0] == 'seed' and j[3]]
+        seeds = [j[1] for j in jobs if j[0] == 'seed' and j[3]]
+        if det_n and seeds and not harness_errors and not timed_out:
             env = dict(os.environ)
             env['PYTHONHASHSEED'] = '4242'
             try:
